@@ -494,6 +494,24 @@ class World:
 
     def call_repo(self, ex, st, fn, args, kw, line, owner=None):
         qn = qualname_of(fn)
+        from .contract import NATIVE
+
+        if qn in NATIVE and not _has_sym(list(args) + list(kw.values())):
+            # pure function on concrete arguments: the real code is run (exact semantics, nothing modelled)
+            self.transparent_used.add(qn + " (run natively on concrete arguments)")
+            try:
+                r = fn(*args, **kw)
+            except Exception as e:  # noqa: BLE001
+                ex.pending_raise(st, ExcVal(type(e), line=line))
+                return
+            post = NATIVE[qn]
+            yield st, self.lift(post(r, args, kw) if post else r)
+            return
+        if fn.__module__.startswith("pendulum.locales.") and fn.__module__ != "pendulum.locales.locale":
+            # plural / ordinal rules are lambdas in the locale data files: executed from their source
+            self.transparent_used.add(f"{fn.__module__}.{fn.__qualname__}")
+            yield from ex.call_function_source(st, fn, args, kw, line)
+            return
         entry = REGISTRY.get(qn)
         force_inline = ex.case is not None and qn in (ex.case.options().get("transparent") or ())
         if force_inline:
@@ -501,8 +519,11 @@ class World:
             yield from ex.call_function_source(st, fn, args, kw, line, defclass=owner)
             return
         if entry is not None:  # (a recursive call is served by the function's own contract: partial correctness)
-            yield from self.call_contract(ex, st, entry, fn, args, kw, line)
-            return
+            a_ = self.bind_native(fn, args, kw, line)
+            if a_ is None or entry.select(a_) is not None or qn not in TRANSPARENT:
+                yield from self.call_contract(ex, st, entry, fn, args, kw, line)
+                return
+            # no declared case fits these operands, and the function is also declared transparent: re-execute it
         if qn in TRANSPARENT:
             self.transparent_used.add(qn)
             defclass = owner
@@ -609,7 +630,7 @@ class World:
     def call_native_method(self, ex, st, bm, args, kw, line):
         recv = bm.self_val
         name = bm.func.__name__
-        if any(is_sym(x) or isinstance(x, Obj) for x in list(args) + list(kw.values())):
+        if any(is_sym(x) or isinstance(x, Obj) or hasattr(x, "_symstr") for x in list(args) + list(kw.values())):
             h = self.stdlib.get(id(bm.func))
             if h is None:
                 raise Unsupported(f"{type(recv).__name__}.{name} with symbolic arguments at line {line}")
@@ -674,27 +695,40 @@ class World:
             yield from self._unroll_while(ex, s, st, 0)
             return
         entry = dict(st.env)
-        for label, f in spec_.inv(Env(st.env), Env(entry), ex.args0):
+        has_yield = any(isinstance(n, (ast.Yield, ast.YieldFrom)) for b in s.body for n in ast.walk(b))
+
+        def envof(state):
+            if not has_yield:
+                return Env(state.env)
+            d = dict(state.env)
+            d["__count__"] = state.ghost.get("count", 0)
+            return Env(d)
+
+        for label, f in spec_.inv(envof(st), Env(entry), ex.args0):
             ex.oblige(st.fork(tag=f"W{k}init"), f, f"loop{k}", f"init.{label}", line=s.lineno)
         h = st.fork(tag=f"W{k}")
         for name in sorted(self._assigned(s.body)):
             if name in h.env:
                 h.env[name] = self._havoc(ex, name, h.env[name], k)
+        if has_yield:
+            cnt = ex.fresh.int(f"count_W{k}")
+            h.ghost["count"] = cnt
+            h.assume(cnt >= 0)
         for c in getattr(ex.fresh, "side", []):
             h.assume(c)
-        for label, f in spec_.inv(Env(h.env), Env(entry), ex.args0):
+        for label, f in spec_.inv(envof(h), Env(entry), ex.args0):
             h.assume(f)
-        v0 = spec_.variant(Env(h.env), Env(entry), ex.args0) if spec_.variant else None
+        v0 = spec_.variant(envof(h), Env(entry), ex.args0) if spec_.variant else None
         for s0, c in ex.ev(s.test, h):
             t = ex.truth(c)
             s_body = s0.fork(t if is_sym(t) else None, f"W{k}body")
             if t is not False and ex.feasible(s_body):
                 for s2, o in ex.run(s.body, s_body):
                     if o is None or o[0] == "continue":
-                        for label, f in spec_.inv(Env(s2.env), Env(entry), ex.args0):
+                        for label, f in spec_.inv(envof(s2), Env(entry), ex.args0):
                             ex.oblige(s2, f, f"loop{k}", f"preserve.{label}", line=s.lineno)
                         if v0 is not None:
-                            v1 = spec_.variant(Env(s2.env), Env(entry), ex.args0)
+                            v1 = spec_.variant(envof(s2), Env(entry), ex.args0)
                             ex.oblige(s2, sym.And(sym.ge(v0, 0), sym.lt(v1, v0)), f"loop{k}", "variant", line=s.lineno)
                     elif o[0] == "break":
                         yield s2, None
@@ -975,7 +1009,7 @@ def _tname(v):
 def _has_sym(c):
     it = c.values() if isinstance(c, dict) else c
     for x in it:
-        if is_sym(x) or isinstance(x, Obj):
+        if is_sym(x) or isinstance(x, Obj) or hasattr(x, "_symstr"):
             return True
         if isinstance(x, (list, tuple, dict)) and _has_sym(x):
             return True
